@@ -303,6 +303,8 @@ def oracle_builder_names(rng):
         # every kind of nonlinear atom at once: each epigraph Variable has its own name
         from sageopt.coniclifts.operators.abs import abs as clabs
         from sageopt.coniclifts.operators.pos import pos as clpos
+        from harness.props.c11 import align_atom_counters
+        align_atom_counters()        # as in a fresh process: the first atom of every class carries the same serial number
         za = cl.Variable(shape=(2,), name='atoms_z')
         mixed = cl.Problem(cl.MIN, za[0] + za[1], [clabs(za[:1] - 3.0) <= 2, clpos(za[1:] + 1.0) <= 5, cl.vector2norm(za) <= 10,
                                                     cl.weighted_sum_exp(np.array([1.0, 1.0]), za) <= 200, za >= -4,
